@@ -2,6 +2,7 @@
 mod common;
 mod evmrun;
 mod histcheck;
+mod journalcheck;
 mod monchecks;
 mod monitors;
 mod ops;
@@ -38,6 +39,7 @@ fn main() {
             ops::c05_opcodes(&mut ctx);
             histcheck::c05_precompiles(&mut ctx);
         }
+        "C06" => journalcheck::c06(&mut ctx),
         "C07" => monchecks::c07(&mut ctx),
         "C08" => monchecks::c08(&mut ctx),
         "C09" => monchecks::c09(&mut ctx),
